@@ -2,12 +2,38 @@
    Only property theorems and their assumptions. *)
 From Coq Require Import List NArith Bool.
 From Quill Require Import Queue.BQDefs Backend.BEDefs Backend.BEInv Backend.BEDispatch.
-From Quill Require TieCtx.
+From Quill Require TieCtx TieBE ExpectedBE.
 From Quill Require Queue.UQDefs.
 Import ListNotations.
 Local Open Scope N_scope.
 
 (* T-src: an exited thread's context is removed only when its queue and its transit event buffer are both empty *)
+(* T-src: the backend loop M-BE models - _poll, the populate / read / decode passes, the processing of the lowest
+   timestamp, the two emptiness questions, the context cache refresh and clean-up, the sink flush - is, statement by
+   statement, the code the model was written against and compared with (ExpectedBE.v) *)
+Theorem C03_tie_backend_loop :
+  QuillGen.SrcFacts.sk_be_poll = Quill.ExpectedBE.sk_be_poll /\
+  QuillGen.SrcFacts.sk_be_populate_transit_events_from_frontend_queues = Quill.ExpectedBE.sk_be_populate_transit_events_from_frontend_queues /\
+  QuillGen.SrcFacts.sk_be_read_unbounded_frontend_queue = Quill.ExpectedBE.sk_be_read_unbounded_frontend_queue /\
+  QuillGen.SrcFacts.sk_be_populate_transit_event_from_frontend_queue = Quill.ExpectedBE.sk_be_populate_transit_event_from_frontend_queue /\
+  QuillGen.SrcFacts.sk_be_populate_formatted_log_message = Quill.ExpectedBE.sk_be_populate_formatted_log_message /\
+  QuillGen.SrcFacts.sk_be_process_lowest_timestamp_transit_event = Quill.ExpectedBE.sk_be_process_lowest_timestamp_transit_event /\
+  QuillGen.SrcFacts.sk_be_process_transit_event = Quill.ExpectedBE.sk_be_process_transit_event /\
+  QuillGen.SrcFacts.sk_behas_pending_events_for_caching_when_transit_event_buffer_empty = Quill.ExpectedBE.sk_behas_pending_events_for_caching_when_transit_event_buffer_empty /\
+  QuillGen.SrcFacts.sk_be_check_frontend_queues_and_cached_transit_events_empty = Quill.ExpectedBE.sk_be_check_frontend_queues_and_cached_transit_events_empty /\
+  QuillGen.SrcFacts.sk_be_update_active_thread_contexts_cache = Quill.ExpectedBE.sk_be_update_active_thread_contexts_cache /\
+  QuillGen.SrcFacts.sk_be_cleanup_invalidated_thread_contexts = Quill.ExpectedBE.sk_be_cleanup_invalidated_thread_contexts /\
+  QuillGen.SrcFacts.sk_be_flush_and_run_active_sinks = Quill.ExpectedBE.sk_be_flush_and_run_active_sinks.
+Proof.
+  exact (conj TieBE.src_be_poll (conj TieBE.src_be_populate_transit_events_from_frontend_queues (conj TieBE.src_be_read_unbounded_frontend_queue
+        (conj TieBE.src_be_populate_transit_event_from_frontend_queue (conj TieBE.src_be_populate_formatted_log_message
+        (conj TieBE.src_be_process_lowest_timestamp_transit_event (conj TieBE.src_be_process_transit_event
+        (conj TieBE.src_behas_pending_events_for_caching_when_transit_event_buffer_empty
+        (conj TieBE.src_be_check_frontend_queues_and_cached_transit_events_empty (conj TieBE.src_be_update_active_thread_contexts_cache
+        (conj TieBE.src_be_cleanup_invalidated_thread_contexts TieBE.src_be_flush_and_run_active_sinks))))))))))).
+Qed.
+Print Assumptions C03_tie_backend_loop.
+
 Theorem C03_tie_ctx_removal_guard : QuillGen.SrcFacts.be_ctx_removal_requires_empty_buffer = true.
 Proof. exact TieCtx.src_be_ctx_removal_requires_empty_buffer. Qed.
 Print Assumptions C03_tie_ctx_removal_guard.
